@@ -157,7 +157,7 @@ WriteOutcome write_dataset(const std::string& path, const Opt& o, const mdl::Hea
     WriteOutcome w;
     try {
         osmium::io::File file{path, format_string(o)};
-        osmium::io::Writer writer{file, iou::model_to_header(H), osmium::io::overwrite::allow, pool(2)};
+        osmium::io::Writer writer{file, iou::model_to_header(H), osmium::io::overwrite::allow, pool(4)};
         if (o.by_item == 1) {
             osmium::memory::Buffer buf{1024, osmium::memory::Buffer::auto_grow::yes};
             for (const auto& obj : D) {
@@ -166,21 +166,30 @@ WriteOutcome write_dataset(const std::string& path, const Opt& o, const mdl::Hea
                 writer(*buf.begin());
             }
         } else if (o.by_item == 2) {
-            // runs of single items alternating with whole buffers on the same Writer
+            // a seeded sequence of API calls on one Writer: runs of single items, whole buffers (also
+            // several in a row) and explicit flush() calls (also repeated), in any order
             osmium::memory::Buffer item_buf{1024, osmium::memory::Buffer::auto_grow::yes};
+            vh::Rng frng{vh::hash_str(path), D.size()};
             size_t i = 0;
-            bool items = true;
             while (i < D.size()) {
-                const size_t run = 1 + (i * 7 + D.size()) % 4;
-                if (items) {
-                    for (size_t k = 0; k < run && i < D.size(); ++k, ++i) { item_buf.clear(); mdl::to_buffer(D[i], item_buf); writer(*item_buf.begin()); }
-                } else {
-                    osmium::memory::Buffer buf{4096, osmium::memory::Buffer::auto_grow::yes};
-                    for (size_t k = 0; k < run && i < D.size(); ++k, ++i) mdl::to_buffer(D[i], buf);
-                    writer(std::move(buf));
+                const size_t run = 1 + frng.below(4);
+                switch (frng.below(4)) {
+                    case 0:
+                        for (size_t k = 0; k < run && i < D.size(); ++k, ++i) { item_buf.clear(); mdl::to_buffer(D[i], item_buf); writer(*item_buf.begin()); }
+                        break;
+                    case 1: case 2: {
+                        osmium::memory::Buffer buf{4096, osmium::memory::Buffer::auto_grow::yes};
+                        for (size_t k = 0; k < run && i < D.size(); ++k, ++i) mdl::to_buffer(D[i], buf);
+                        writer(std::move(buf));
+                        break;
+                    }
+                    default:
+                        writer.flush();
+                        if (frng.coin()) writer.flush();
+                        break;
                 }
-                items = !items;
             }
+            if (frng.coin()) writer.flush();
         } else {
             osmium::memory::Buffer buf{64 * 1024, osmium::memory::Buffer::auto_grow::yes};
             size_t n = 0;
@@ -336,7 +345,7 @@ void case_random(uint64_t idx, vh::Rng& rng) {
 // 6 = tag-heavy dense nodes, 7 = string-table-heavy block (> 32 MiB of unique
 // strings in < 8000 objects), 8 = 8001 relations with long roles
 void case_special(uint64_t idx, vh::Rng& rng) {
-    const unsigned kind = static_cast<unsigned>(idx % 9);
+    const unsigned kind = static_cast<unsigned>(idx % 10);
     Opt o;
     o.fmt = rng.coin() ? PBF : OSHPBF;
     o.dense = (idx / 9) % 2 == 0;
@@ -387,6 +396,19 @@ void case_special(uint64_t idx, vh::Rng& rng) {
             D.push_back(x);
         }
         what = vh::fmt("%zu ways with 5 unique 1000-byte tag values each (string table > 32 MiB)", nways);
+    } else if (kind == 9) {
+        // many blocks encoded at the same time by several pool threads (text formats encode in the pool):
+        // 40 buffers of 1000 small nodes with distinct timestamps, ids and coordinates
+        o.fmt = static_cast<int>(rng.pick(std::vector<int>{OSM, OPL, OSH, PBF}));
+        o.low = false;
+        go = genopts_for(o);
+        for (int i = 0; i < 40000; ++i) {
+            mdl::Obj x; x.type = mdl::NODE; x.id = i + 1; x.version = 1 + static_cast<uint32_t>(i % 7); x.visible = true;
+            x.timestamp = 1 + static_cast<uint32_t>(rng.below(0xfffffffeULL)); x.changeset = 1 + static_cast<uint32_t>(i); x.uid = 1 + static_cast<uint32_t>(i % 1000);
+            x.user = "u" + std::to_string(i % 50); x.x = static_cast<int32_t>(rng.range(-1800000000, 1800000000)); x.y = static_cast<int32_t>(rng.range(-900000000, 900000000));
+            D.push_back(x);
+        }
+        what = "40 buffers of 1000 nodes with distinct timestamps encoded concurrently";
     } else {
         for (int i = 0; i < 8001; ++i) {
             mdl::Obj x = small_obj(mdl::RELATION);
@@ -414,7 +436,7 @@ int main(int argc, char** argv) {
     vh::info("domain: ids (INT64_MIN, INT64_MAX], version/uid < 2^31, any uint32 timestamp/changeset, locations fully undefined or any int32 pair (single coordinates never equal the undefined sentinel), invisible nodes have no location, strings valid UTF-8 without NUL <= 1024 bytes (XML: also no C0 controls except TAB/LF/CR, no U+FFFE/U+FFFF), anonymous changesets have an empty user");
     const std::string mode = vh::arg("mode", "random");
     int rc;
-    if (mode == "special") rc = vh::run_cases(argc, argv, 54, case_special);
+    if (mode == "special") rc = vh::run_cases(argc, argv, 60, case_special);
     else rc = vh::run_cases(argc, argv, 600, case_random);
     ::unlink((g_dir + "/f").c_str());
     ::rmdir(g_dir.c_str());
